@@ -159,7 +159,7 @@ nor blacklisted (H1); a client's control channel is only ever pointed at the con
 authenticated as that client, and never by a message answered "failed" (H3); `Success=true` is only written for
 such a justified request (H5). -/
 theorem C03_main (h : Hdr) (es : List Event) : holds h es (run h.init es) = true := by
-  have I : Inv h.init := Inv.initial h.now h.ips h.nc h.burst
+  have I : Inv h.init := Inv.initial h.now h.ips h.nc h.burst h.secs
   exact holdsFrom_run I es
 
 /-- the same from any state satisfying the invariant (e.g. any reachable state) -/
@@ -237,7 +237,7 @@ credentials are present and unexpired, and carried the HMAC under that client's 
 that very connection. -/
 theorem C03_ok_needs_proof (s : Srv) (c : Nat) (ty : Ty) (k : CRef) (rr : RespRef)
     (h : (step s (.hs c ty k rr)).2 = .ok) :
-    ∃ x nr n, k = .idx x ∧ x < s.nClients ∧ flagsOK s.now (s.env.cl x) = true ∧ rr = .hmac x nr ∧
+    ∃ x nr n, k = .idx x ∧ x < s.nClients ∧ flagsOK s.now (s.env.cl x) = true ∧ rr = .hmac (.client x) nr ∧
       s.env.resolveN nr = some n ∧ pend (s.ctl c) = some n ∧ pend ((step s (.hs c ty k rr)).1.ctl c) = none := by
   have sp := stepCore_spec s (.hs c ty k rr)
   obtain ⟨c0, ty0, k0, rr0, he, _, hp, _, j⟩ := sp.rok h
@@ -250,7 +250,45 @@ theorem C03_ok_needs_proof (s : Srv) (c : Nat) (ty : Ty) (k : CRef) (rr : RespRe
     simp only [Event.hs.injEq] at he
     obtain ⟨_, _, _, h4⟩ := he
     subst d
-    exact ⟨key, nr, n, rfl, a, b, h4, f, g, hp⟩
+    exact ⟨k0, nr, n, rfl, a, b, h4, f, g, hp⟩
+
+/-- **no response term authenticates a client whose stored secret is unusable.**  If the stored secret of client
+`x` is not a ciphertext that decrypts under the server's master key (sealed under another key, empty, or only the
+deprecated plaintext field), then NO handshake request naming `x` — whatever its response term: the empty key, the
+ciphertext bytes as key, the legacy plaintext, any client's key, junk — is answered with success, and it leaves every
+connection's authentication as it was. -/
+theorem C03_unusable_never (s : Srv) (c : Nat) (ty : Ty) (x : Nat) (rr : RespRef)
+    (hu : (s.env.cl x).secret ≠ .usable) :
+    (step s (.hs c ty (.idx x) rr)).2 ≠ .ok ∧
+    (∀ c', pairOf ((step s (.hs c ty (.idx x) rr)).1.ctl c') = pairOf (s.ctl c') ∨
+           (step s (.hs c ty (.idx x) rr)).1.ctl c' = none) := by
+  have sp := stepCore_spec s (.hs c ty (.idx x) rr)
+  have hr : (step s (.hs c ty (.idx x) rr)).2 = (stepCore s (.hs c ty (.idx x) rr)).2 := rfl
+  have no : ∀ n' c' y, ¬ Jm s (.hs c ty (.idx x) rr) (stepCore s (.hs c ty (.idx x) rr)).2 n' c' y := by
+    intro n' c' y j
+    obtain ⟨_, _, j | j⟩ := j
+    · obtain ⟨_, hh, _⟩ := j; cases hh
+    · obtain ⟨_, _, _, _, he, _, hf, _⟩ := j
+      simp only [Event.hs.injEq, CRef.idx.injEq] at he
+      obtain ⟨_, _, hx, _⟩ := he
+      subst hx
+      simp only [flagsOK, Bool.and_eq_true, beq_iff_eq] at hf
+      exact hu hf.2
+  rw [hr]
+  constructor
+  · intro h
+    obtain ⟨c0, _, k, _, _, _, _, _, j⟩ := sp.rok h
+    exact no _ c0 k j
+  · intro c'
+    rcases sp.auth c' with a | a | ⟨_, y, _, j⟩
+    · exact Or.inl a
+    · exact Or.inr a
+    · exact absurd j (no _ c' y)
+
+/-- … in particular `VerifyResponse` itself is false for an unusable stored secret, whatever the response -/
+theorem C03_verify_fails_closed (cfg : ClientConfigT) (k n : Nat) (resp : Resp) (hu : cfg.secret ≠ .usable) :
+    verifyResponse cfg k n resp = false := by
+  cases h : cfg.secret <;> simp_all [verifyResponse]
 
 /-- **every challenge is accepted at most once (acknowledged acceptances).**  In every reachable state a pending
 challenge was never accepted before, no nonce is pending on two connections, and a pending challenge that any
@@ -261,7 +299,7 @@ theorem C03_pending_fresh (h : Hdr) (es : List Event) (c : Nat) (n : Nat)
     (∀ c', pend ((runState h.init es).ctl c') = some n → c = c') ∧
     (∀ d, (runState h.init es).env.lastCh d = some n → d = c) ∧
     (∀ d, (runState h.init es).env.prevCh d ≠ some n) := by
-  have I := reachable_inv h.init (Inv.initial h.now h.ips h.nc h.burst) es
+  have I := reachable_inv h.init (Inv.initial h.now h.ips h.nc h.burst h.secs) es
   exact ⟨I.i4 c n hp, fun c' h' => I.i5 c c' n hp h', (I.i3 c n hp).1, (I.i3 c n hp).2⟩
 
 /-- **challenge_once.**  After EVERY history, the nonces of all phase-2 messages the handler ever accepted
@@ -270,7 +308,7 @@ distinct, and no challenge that is still pending has been accepted: every challe
 theorem C03_challenge_once (h : Hdr) (es : List Event) :
     (runState h.init es).accepted.Nodup ∧
     ∀ c n, pend ((runState h.init es).ctl c) = some n → n ∉ (runState h.init es).accepted := by
-  have A := (reachable_invs h.init (Inv.initial h.now h.ips h.nc h.burst) (AccInv.initial h.now h.ips h.nc h.burst) es).2
+  have A := (reachable_invs h.init (Inv.initial h.now h.ips h.nc h.burst h.secs) (AccInv.initial h.now h.ips h.nc h.burst h.secs) es).2
   exact ⟨A.a2, A.a1⟩
 
 /-- … and `accepted` really records acceptances: a step extends it only by the nonce that was pending on the
@@ -291,7 +329,7 @@ theorem C03_registry_sound (h : Hdr) (es : List Event) (y c : Nat)
 
 /-! ## Non-vacuity -/
 
-def hdr2 : Hdr := ⟨1000, [0, 1], 2, 20⟩
+def hdr2 : Hdr := ⟨1000, [0, 1], 2, 20, []⟩
 
 /-- the happy path authenticates: phase 1, then the HMAC under A's key over the latest challenge -/
 example : (run hdr2.init [.hs 0 .control (.idx 0) .none, .hs 0 .control (.idx 0) (.hmac 0 (.last 0))]).map (·.resp) =
@@ -311,6 +349,27 @@ example : (run hdr2.init [.hs 0 .control (.idx 0) .none, .hs 0 .control (.idx 0)
     .hs 1 .control (.idx 0) .none, .hs 1 .control (.idx 0) (.hmac 0 (.last 0)),
     .hs 1 .control (.idx 0) .none, .hs 1 .control (.idx 0) .none, .hs 1 .control (.idx 0) (.hmac 0 (.prev 1))]).map (·.resp) =
     [.ch 0, .ok, .fail, .ch 1, .fail, .ch 2, .fail, .ch 3, .ch 4, .fail] := by decide
+
+/-- clients with unusable stored secrets: A usable, V sealed under another master key.  Phase 1 naming A yields a
+challenge; phase 2 naming V fails under the empty key, V's ciphertext as key, V's legacy plaintext, A's key and
+V's own original secret; V can even get a challenge of its own (its ciphertext is non-empty) and still fails. -/
+example : (run (⟨1000, [0, 1], 2, 20, [.usable, .undec]⟩ : Hdr).init
+    [.hs 0 .control (.idx 0) .none, .hs 0 .control (.idx 1) (.hmac .empty (.last 0)),
+     .hs 0 .control (.idx 0) .none, .hs 0 .control (.idx 1) (.hmac (.cipher 1) (.last 0)),
+     .hs 0 .control (.idx 0) .none, .hs 0 .control (.idx 1) (.hmac (.plain 1) (.last 0)),
+     .hs 0 .control (.idx 0) .none, .hs 0 .control (.idx 1) (.hmac 0 (.last 0)),
+     .hs 0 .control (.idx 1) .none, .hs 0 .control (.idx 1) (.hmac 1 (.last 0))]).map (·.resp) =
+    [.ch 0, .fail, .ch 1, .fail, .ch 2, .fail, .ch 3, .fail, .ch 4, .fail] := by decide
+
+/-- a legacy (plaintext-only) client is refused already in phase 1 -/
+example : (run (⟨1000, [0], 1, 20, [.legacy]⟩ : Hdr).init [.hs 0 .control (.idx 0) .none]).map (·.resp) = [.fail] := by
+  decide
+
+/-- the predicate rejects an observation in which the empty key authenticates the client with the unusable secret -/
+example : holds ⟨1000, [0, 1], 2, 20, [.usable, .undec]⟩
+    [.hs 0 .control (.idx 0) .none, .hs 0 .control (.idx 1) (.hmac .empty (.last 0))]
+    [⟨.ch 0, ⟨[some ⟨false, none, some 0⟩, none], [none, none], [false, false], [false, false]⟩⟩,
+     ⟨.ok, ⟨[some ⟨true, some 1, none⟩, none], [none, some 0], [false, false], [false, false]⟩⟩] = false := by decide
 
 /-- the predicate is not trivially true: an observation in which the replayed response is accepted is rejected -/
 example : holds hdr2 [.hs 0 .control (.idx 0) .none, .hs 0 .control (.idx 0) (.hmac 0 (.last 0)),
